@@ -120,7 +120,8 @@ def main():
         # our checks
         results = {}
         for p in props:
-            env = dict(ENV, BBSIM_REPO=wt)
+            rdir = tempfile.mkdtemp(prefix='replays-', dir='/tmp')
+            env = dict(ENV, BBSIM_REPO=wt, BBSIM_REPLAYDIR=rdir)
             t0 = time.time()
             rc, out = sh(f"/verif/bin/bbsim check --prop {p} --runs {runs} --no-evidence", cwd='/verif', env=env)
             m = re.search(r'check=(\S+) harness=(\S+) run_index=(\d+)', out)
@@ -132,7 +133,7 @@ def main():
             if rc == 2:
                 results[p]['infra'] = out[-600:]
             print(f"  {p}: exit={rc} violations={nviol} checks={checks} first={firsts[0] if firsts else None}")
-            sh(f"rm -f /verif/replays/{p}-*.json")
+            shutil.rmtree(rdir, ignore_errors=True)
         meta['bbsim'] = results
         meta['caught'] = any(r['exit'] == 1 for r in results.values())
         return finish(meta, src, name, valid)
